@@ -131,6 +131,7 @@ func C03(r *core.Run) {
 	numberPreconversion(r)
 	leniency(r)
 	queryReuse(r)
+	scalarsStoredVerbatim(r)
 	r.Tick("rest")
 }
 
